@@ -257,6 +257,8 @@ def base_types(rng, n_random, depth):
     out = [t for t in out if not (t.flags & tg.F_UNBOUNDED)]
     # zero-length std::arrays are paired explicitly in generate(); the rewrites would turn them into zero-length C arrays (not C++)
     out = [t for t in out if ",0>" not in t.name]
+    # directly nested nullables (kept in the codec corpus with representable values only) are not rewritten: the rewrites drop the outer layer for them
+    out = [t for t in out if "Optional<Optional<" not in t.name and ",Result<" not in t.name]
     seen = set()
     while len([1 for _ in seen]) < n_random:
         t = tg.random_type(rng, depth, allow_table=True)
@@ -360,10 +362,16 @@ def generate(outdir, seed, npairs):
                 idx[t.cpp] = len(types); types.append(t)
     srcs = tg.emit_tus(outdir, types, per_tu=8, prefix="ftypes")
     L = ["// generated by gen/funggen.py seed=%d" % seed, '#include "ftypes_decls.h"', '#include "engines/fung/pairs.h"', "namespace vf {", "std::vector<FungPair> fung_pairs() {", "  std::vector<FungPair> v;"]
-    for (a, b, rule, exp) in pairs:
+    decl_at = L.index("namespace vf {")
+    for k, (a, b, rule, exp) in enumerate(pairs):
+        L.insert(decl_at, "struct VfBindIf%d : nop::Interface<VfBindIf%d> { NOP_INTERFACE(\"verif.fung.bind\"); NOP_METHOD(ByRef, int(const %s&)); NOP_METHOD(ByVal, int(%s)); NOP_METHOD(Ret, %s(int)); NOP_INTERFACE_API(ByRef, ByVal, Ret); };" % (k, k, a.cpp, a.cpp, a.cpp))
+        decl_at += 1
+    for k, (a, b, rule, exp) in enumerate(pairs):
         L.append("  v.push_back(FungPair{%s, %s, %s, %s, nop::IsFungible<%s, %s>::value, nop::IsFungible<%s, %s>::value, nop::IsFungible<%s, %s>::value, nop::IsFungible<%s, %s>::value, "
-                 "nop::IsFungible<void(%s), void(%s)>::value, nop::IsFungible<%s(int), %s(int)>::value, ProtocolAdmits<%s, %s>::write, ProtocolAdmits<%s, %s>::read});" % (
-                     tg._cq(a.name), tg._cq(b.name), tg._cq(rule), "true" if exp else "false", a.cpp, b.cpp, b.cpp, a.cpp, a.cpp, a.cpp, b.cpp, b.cpp, a.cpp, b.cpp, a.cpp, b.cpp, a.cpp, b.cpp, a.cpp, b.cpp))
+                 "nop::IsFungible<void(%s), void(%s)>::value, nop::IsFungible<%s(int), %s(int)>::value, ProtocolAdmits<%s, %s>::write, ProtocolAdmits<%s, %s>::read, "
+                 "BindAdmits<%s, %s>::by_ref, BindAdmits<%s, %s>::by_val, BindAdmits<%s, %s>::mixed, BindAdmits<%s, %s>::ret});" % (
+                     tg._cq(a.name), tg._cq(b.name), tg._cq(rule), "true" if exp else "false", a.cpp, b.cpp, b.cpp, a.cpp, a.cpp, a.cpp, b.cpp, b.cpp, a.cpp, b.cpp, a.cpp, b.cpp, a.cpp, b.cpp, a.cpp, b.cpp,
+                     "VfBindIf%d" % k, b.cpp, "VfBindIf%d" % k, b.cpp, "VfBindIf%d" % k, b.cpp, "VfBindIf%d" % k, b.cpp))
     L += ["  return v;", "}", "}"]
     # split the pair table over several TUs to bound compile time
     p = os.path.join(outdir, "ftypes_pairs.cpp")
